@@ -4,8 +4,8 @@
 EXTENDS Codec, TUniverse, TLC, Json
 
 CONSTANTS EmitCases, MaxFields
-VARIABLES kind, doc, env
-vars == <<kind, doc, env>>
+VARIABLES kind, doc, env, hp
+vars == <<kind, doc, env, hp>>
 
 Seqs == {<<0, 0, 0, 0>>, <<0, 0, 0, 1>>, <<255, 255, 255, 255>>, <<127, 255, 255, 255>>, <<128, 0, 0, 0>>}
 Names == {<<>>, <<97>>, <<97, 128>>}
@@ -13,8 +13,13 @@ Envs == {[name |-> n, mt |-> m, seq |-> s, sid |-> i, body |-> b] :
            n \in Names, m \in 1..4, s \in Seqs, i \in {0, 1, 255, 256, 32767},
            b \in {<<0>>, Enc(Struct(<<[id |-> 1, v |-> I7]>>))}}
 NoEnv == [name |-> <<>>, mt |-> 0, seq |-> <<>>, sid |-> 0, body |-> <<>>]
-Init == \/ kind = "value" /\ doc \in U2(MaxFields) /\ env = NoEnv
-        \/ kind = "env" /\ doc = NoVal /\ env \in Envs
+\* a container header whose count is patched in later: prefix, placeholder count, final count, bytes written in between
+Counts == {0, 1, 255, 256, 65536, 2147483647}
+Patches == [pre : {<<>>, <<11, 0, 1>>}, map : BOOLEAN, ph : Counts, n : Counts, tail : {<<>>, <<0>>, <<1, 2, 3, 4, 5>>}]
+NoPatch == [pre |-> <<>>, map |-> FALSE, ph |-> 0, n |-> 0, tail |-> <<>>]
+Init == \/ kind = "value" /\ doc \in U2(MaxFields) /\ env = NoEnv /\ hp = NoPatch
+        \/ kind = "env" /\ doc = NoVal /\ env \in Envs /\ hp = NoPatch
+        \/ kind = "patch" /\ doc = NoVal /\ env = NoEnv /\ hp \in Patches
 Next == UNCHANGED vars
 Spec == Init /\ [][Next]_vars
 
@@ -24,6 +29,13 @@ UnwrapWrap == kind = "env" =>
   LET w == Wrap(env.name, env.mt, env.seq, env.sid, env.body)  u == Unwrap(w) IN
   /\ u.ok /\ u.name = env.name /\ u.mt = env.mt /\ u.seq4 = env.seq /\ u.sid = env.sid /\ u.body = env.body /\ u.ft = T_STRUCT
   /\ Header(env.name, env.mt, env.seq, env.sid) \o env.body \o Footer = w
+\* patching the count slot gives the header as if written with the final count, wherever the slot lies (also at the very end)
+PatchLaw == kind = "patch" =>
+  LET H(c) == IF hp.map THEN MapBegin(11, 12, c) ELSE ListBegin(12, c)
+      pos == Len(hp.pre) + (IF hp.map THEN 2 ELSE 1)
+      w == hp.pre \o H(hp.ph) \o hp.tail IN
+  /\ PatchOk(w, pos) /\ PatchI32(w, pos, hp.n) = hp.pre \o H(hp.n) \o hp.tail
+  /\ ~PatchOk(w, Len(w) - 3) /\ ~PatchOk(w, 0 - 1)
 ScalarLaw == kind = "value" /\ doc.t \in ScalarKinds =>
   LET k == CASE doc.t = T_BOOL -> "bool" [] doc.t = T_I8 -> "byte" [] doc.t = T_I16 -> "i16" [] doc.t = T_I32 -> "i32"
              [] doc.t = T_I64 -> "i64" [] doc.t = T_DBL -> "double" [] OTHER -> "string"
